@@ -444,6 +444,28 @@ def evalActual (st : State) (chk : Bool) (p : Program) (ws : List String) : Opti
     | _, _ => none
   | _ => none
 
+/-! ## semantics corpus: `eval` against rustc on random expressions (`semx` registers, `semop` compares) -/
+
+def parseArgSpec (s : String) : Option (ITy ⊕ Nat) :=
+  if s.startsWith "uint:" then ((s.drop 5).toString.toNat?).map Sum.inr else (ityOfName s).map Sum.inl
+
+def semRegister (st : State) (id ta tb sx : String) : State × List String :=
+  match ityOfName ta, parseArgSpec tb with
+  | some tA, some tB =>
+    let c : ECtx := { rawTy := tA, argTy := (match tB with | .inl t => some t | .inr _ => none),
+                      argUint := (match tB with | .inr n => some n | .inl _ => none), typeId := fun _ => none }
+    match (parseSx sx).bind (elabSx c none) with
+    | some e => ({ st with sem := st.sem.insert id (e, tA, tB) }, [])
+    | none => (st, [s!"bad-sem untranslatable {id} {sx}"])
+  | _, _ => (st, [s!"bad-sem types {id}"])
+
+def semEval (st : State) (chk : Bool) (id a b i : String) : Option String :=
+  match st.sem[id]?, parseNum a, parseNum b, parseNum i with
+  | some (e, tA, tB), some va, some vb, some vi =>
+    let fv : Val := match tB with | .inl t => .int t vb | .inr n => .uint n vb
+    some (showR st (eval (customEnv st) chk { raw := .int tA va, fieldValue := fv, index := .int .usize vi } e))
+  | _, _, _, _ => none
+
 /-! ## the step function -/
 
 structure Out where
@@ -518,6 +540,20 @@ def step (st : State) (chk : Bool) (line : String) : State × Bool × List Strin
       | some e => ({ st.push (.rejected d.name) with curDecl := none, curArgsErr := none }, chk, [s!"verdict {d.name} {showReject e}"])
       | none => let (st', out) := finishDecl st d; (st', chk, out)
     | none => (st, chk, ["bad-line " ++ line])
+  | "semx" :: id :: ta :: tb :: _ =>
+    let sx := " ".intercalate ((line.splitOn " ").drop 4)
+    let (st', out) := semRegister st id ta tb sx
+    (st', chk, out)
+  | ["semop", id, a, b, i, "=", "panic"] =>
+    (match semEval st chk id a b i with
+     | some r => ({ st with nSem := st.nSem + 1, nMisSem := st.nMisSem + (if r != "panic" then 1 else 0) }, chk,
+                  if r != "panic" then [s!"mismatch X {r} :: {line}"] else [])
+     | none => (st, chk, ["bad-sem " ++ line]))
+  | ["semop", id, a, b, i, "=", "ok", v] =>
+    (match semEval st chk id a b i with
+     | some r => ({ st with nSem := st.nSem + 1, nMisSem := st.nMisSem + (if r != "ok " ++ v then 1 else 0) }, chk,
+                  if r != "ok " ++ v then [s!"mismatch X {r} :: {line}"] else [])
+     | none => (st, chk, ["bad-sem " ++ line]))
   | "nfcmp" :: decl :: item :: _ =>
     let sx := " ".intercalate ((line.splitOn " ").drop 3)
     let (st', out) := nfcmp st decl item sx
@@ -561,7 +597,7 @@ def step (st : State) (chk : Bool) (line : String) : State × Bool × List Strin
         let out := out ++ (if misA then [s!"mismatch A {resA.getD ""} :: {line}"] else [])
         (st', chk, out)
     | [] => (st, chk, ["bad-op " ++ line])
-  | ["stats"] => (st, chk, [s!"stats ops={st.nOps} misM={st.nMisM} misS={st.nMisS} skipS={st.nSkipS} opsA={st.nOpsA} misA={st.nMisA}"])
+  | ["stats"] => (st, chk, [s!"stats ops={st.nOps} misM={st.nMisM} misS={st.nMisS} skipS={st.nSkipS} opsA={st.nOpsA} misA={st.nMisA} sem={st.nSem} misSem={st.nMisSem}"])
   | _ => (st, chk, ["bad-line " ++ line])
 
 end Bb.Driver
